@@ -37,6 +37,7 @@ SPECIAL_P = [u'Heading_20_1', u'Heading_20_3', u'Preformatted_20_Text', u'Addres
 SPECIAL_S = [u'Emphasis', u'Strong_20_Emphasis', u'Teletype', u'Citation']
 HREFS = [u'', u'#', u'#anchor', u'#a<b', u'javascript:alert("1")', u'http://x/?a=1&b="2"', u"http://x/'q'|frame",
          u'http://example.org/', u'mailto:a@b', u'#q&r', u'../rel<path>', u'|', u'#|x', u' http://sp ', u'http://é/\U0001F600']
+WS = [u' ', u'\t', u'\n', u'\r\n', u'\r', u'  ', u' \r ', u'\n  ', u'\n\n', u' \t', u'\n\t\n']
 SAFE = set(u'abcdefghijklmnopqrstuvwxyzABCDEFGHIJKLMNOPQRSTUVWXYZ0123456789_ .#:/-@')
 
 
@@ -65,7 +66,7 @@ class Gen(object):
         if x < 0.04:
             return u''
         if x < 0.08:
-            return r.choice([u' ', u'\t', u'\r', u'  ', u' \r '])
+            return r.choice(WS)
         if x < 0.16:
             return self.advstr(4)
         self.n += 1
@@ -176,6 +177,10 @@ class Gen(object):
                 out.append(self.frame(depth + 1, innote))
             else:
                 out.append(['t', self.run()])
+            if r.random() < 0.3:
+                out.append(['t', r.choice(WS)]); self.feat.add('ws-node')      # a white-space-only text node of its own
+        if r.random() < 0.15:
+            out.insert(0, ['t', r.choice(WS)]); self.feat.add('ws-node')
         return out
 
     def frame(self, depth, innote=False):
@@ -510,7 +515,10 @@ def visible(spec):
         for it in items:
             k = it[0]
             if k == 't':
-                out.append(['r', it[1], par, set(flags)]); pend.append(out[-1])
+                if it[1] != u'' and it[1].strip() == u'':
+                    out.append(('sep', 'ws', 0, False, wsin))           # a white-space-only text node separates its neighbours
+                else:
+                    out.append(['r', it[1], par, set(flags)]); pend.append(out[-1])
             elif k in ('span', 'a'):
                 del pend[:]
                 out.append(('io',)); inl(it[2], out, par, flags, pend, wsin or wsonly(it[2])); out.append(('io',))
@@ -611,3 +619,219 @@ def features(spec):
     if any(u']]>' in n for n in names):
         f.add('css-cdata-end')
     return f
+
+
+# ---------------------------------------------------------------- the harness's OWN serialiser (second route)
+# The package is written from the description without odfpy: pretty-printed between block elements (white space there is
+# not content), character data exactly as described inside paragraph content, and - optionally - other namespace prefixes.
+NSURI = dict(NS)
+NSURI.update({'dc': u"http://purl.org/dc/elements/1.1/", 'meta': u"urn:oasis:names:tc:opendocument:xmlns:meta:1.0",
+              'manifest': u"urn:oasis:names:tc:opendocument:xmlns:manifest:1.0"})
+ALT = {'office': 'o', 'text': 'tx', 'table': 'tb', 'draw': 'dr', 'style': 'sty', 'xlink': 'xl', 'svg': 'sv', 'fo': 'f',
+       'presentation': 'pr', 'dc': 'dcx', 'meta': 'mt'}
+MIME = {'text': u'application/vnd.oasis.opendocument.text', 'sheet': u'application/vnd.oasis.opendocument.spreadsheet',
+        'pres': u'application/vnd.oasis.opendocument.presentation'}
+
+
+def _esc_text(s):
+    return s.replace(u'&', u'&amp;').replace(u'<', u'&lt;').replace(u'>', u'&gt;').replace(u'\r', u'&#13;')
+
+
+def _esc_attr(s):
+    return (s.replace(u'&', u'&amp;').replace(u'<', u'&lt;').replace(u'"', u'&quot;').replace(u'\n', u'&#10;')
+            .replace(u'\r', u'&#13;').replace(u'\t', u'&#9;'))
+
+
+class Ser(object):
+    def __init__(self, spec, alt=False):
+        self.spec = spec
+        self.pfx = dict((k, (ALT.get(k, k) if alt else k)) for k in NSURI)
+        self.out = []
+        self.png = False
+
+    def q(self, name):
+        p, l = name.split(':')
+        return self.pfx[p] + u':' + l
+
+    def open(self, name, attrs=(), empty=False):
+        a = u''.join(u' %s="%s"' % (self.q(k), _esc_attr(v)) for k, v in attrs if v is not None)
+        self.out.append(u'<%s%s%s>' % (self.q(name), a, u'/' if empty else u''))
+
+    def close(self, name):
+        self.out.append(u'</%s>' % self.q(name))
+
+    def nl(self, depth):
+        self.out.append(u'\n' + u' ' * depth)
+
+    def root(self, name):
+        ns = u''.join(u' xmlns:%s="%s"' % (self.pfx[k], NSURI[k]) for k in sorted(NSURI) if k != 'manifest')
+        self.out.append(u'<?xml version="1.0" encoding="UTF-8"?>\n<%s%s %s="1.2">' % (self.q(name), ns, self.q('office:version')))
+
+    # ---- content
+    def inl(self, items, depth):
+        for it in items:
+            k = it[0]
+            if k == 't':
+                self.out.append(_esc_text(it[1]))
+            elif k == 'span':
+                self.open('text:span', [('text:style-name', it[1])]); self.inl(it[2], depth); self.close('text:span')
+            elif k == 'a':
+                self.open('text:a', [('xlink:href', it[1])]); self.inl(it[2], depth); self.close('text:a')
+            elif k == 's':
+                self.open('text:s', [('text:c', None if it[1] is None else u'%d' % it[1])], True)
+            elif k == 'tab':
+                self.open('text:tab', [], True)
+            elif k == 'br':
+                self.open('text:line-break', [], True)
+            elif k in ('bm', 'bms', 'bme'):
+                self.open({'bm': 'text:bookmark', 'bms': 'text:bookmark-start', 'bme': 'text:bookmark-end'}[k], [('text:name', it[1])], True)
+            elif k == 'bmref':
+                self.open('text:bookmark-ref', [('text:ref-name', it[1])]); self.out.append(_esc_text(it[2])); self.close('text:bookmark-ref')
+            elif k == 'note':
+                self.open('text:note', [('text:note-class', it[1])])
+                self.open('text:note-citation'); self.out.append(_esc_text(it[2])); self.close('text:note-citation')
+                self.open('text:note-body'); self.blocks(it[3], depth + 1); self.nl(depth); self.close('text:note-body')
+                self.close('text:note')
+            elif k == 'frame':
+                a = [('svg:width', u'2cm'), ('svg:height', u'1cm'), ('text:anchor-type', it[1]), ('draw:style-name', it[2])]
+                if self.spec['kind'] == 'pres':
+                    a += [('svg:x', u'1cm'), ('svg:y', u'1cm')]
+                self.open('draw:frame', a)
+                if it[3][0] == 'image':
+                    self.png = True
+                    self.nl(depth + 1); self.open('draw:image', [('xlink:href', u'Pictures/c18.png')], True)
+                else:
+                    self.nl(depth + 1); self.open('draw:text-box'); self.blocks(it[3][1], depth + 2); self.nl(depth + 1); self.close('draw:text-box')
+                self.nl(depth); self.close('draw:frame')
+
+    def blocks(self, items, depth):
+        for b in items:
+            k = b[0]
+            self.nl(depth)
+            if k == 'p':
+                self.open('text:p', [('text:style-name', b[1])]); self.inl(b[2], depth); self.close('text:p')
+            elif k == 'h':
+                self.open('text:h', [('text:outline-level', None if b[1] is None else u'%d' % b[1]), ('text:style-name', b[2])])
+                self.inl(b[3], depth); self.close('text:h')
+            elif k == 'list':
+                self.open('text:list', [('text:style-name', b[1])])
+                for item in b[2]:
+                    self.nl(depth + 1); self.open('text:list-item'); self.blocks(item, depth + 2); self.nl(depth + 1); self.close('text:list-item')
+                self.nl(depth); self.close('text:list')
+            elif k == 'table':
+                self.open('table:table', [('table:name', b[1]), ('table:style-name', b[2])])
+                for cst, rep in b[3]:
+                    self.nl(depth + 1)
+                    self.open('table:table-column', [('table:style-name', cst), ('table:number-columns-repeated', None if rep is None else u'%d' % rep)], True)
+                for rst, cells in b[4]:
+                    self.nl(depth + 1); self.open('table:table-row', [('table:style-name', rst)])
+                    for cell in cells:
+                        self.nl(depth + 2)
+                        if cell[0] == 'covered':
+                            self.open('table:covered-table-cell', [], True)
+                        else:
+                            a = cell[1]
+                            self.open('table:table-cell', [('office:value-type', u'string' if self.spec['kind'] == 'sheet' else None),
+                                                            ('table:number-rows-spanned', u'%d' % a['rs'] if a.get('rs') else None),
+                                                            ('table:number-columns-spanned', u'%d' % a['cs'] if a.get('cs') else None),
+                                                            ('table:style-name', a.get('style'))])
+                            self.blocks(cell[2], depth + 3)
+                            if cell[2]:
+                                self.nl(depth + 2)
+                            self.close('table:table-cell')
+                    self.nl(depth + 1); self.close('table:table-row')
+                self.nl(depth); self.close('table:table')
+            elif k == 'section':
+                self.open('text:section', [('text:name', b[1])]); self.blocks(b[2], depth + 1); self.nl(depth); self.close('text:section')
+            elif k == 'page':
+                self.open('draw:page', [('draw:name', b[1]), ('draw:master-page-name', u'MP1')])
+                for f in b[2]:
+                    self.nl(depth + 1); self.inl([f], depth + 1)
+                self.nl(depth); self.close('draw:page')
+
+    def styles(self, auto, depth):
+        for st in self.spec.get('styles', []):
+            if bool(st.get('auto')) != auto:
+                continue
+            self.nl(depth)
+            self.open('style:style', [('style:name', st['name']), ('style:family', st['fam']), ('style:parent-style-name', st.get('parent'))])
+            tp = [('fo:font-weight', u'bold' if st.get('bold') else None), ('fo:font-style', u'italic' if st.get('italic') else None),
+                  ('fo:color', st.get('color'))]
+            if any(v is not None for _, v in tp):
+                self.nl(depth + 1); self.open('style:text-properties', tp, True)
+            if st.get('margin') is not None and st['fam'] == 'paragraph':
+                self.nl(depth + 1); self.open('style:paragraph-properties', [('fo:margin-left', st['margin'])], True)
+            self.nl(depth); self.close('style:style')
+        for ls in self.spec.get('liststyles', []):
+            if bool(ls.get('auto')) != auto:
+                continue
+            self.nl(depth); self.open('text:list-style', [('style:name', ls['name'])])
+            for i, kind in enumerate(ls['levels']):
+                self.nl(depth + 1)
+                if kind == 'b':
+                    self.open('text:list-level-style-bullet', [('text:level', u'%d' % (i + 1)), ('text:bullet-char', u'*')], True)
+                else:
+                    self.open('text:list-level-style-number', [('text:level', u'%d' % (i + 1)), ('style:num-format', u'1')], True)
+            self.nl(depth); self.close('text:list-style')
+
+    def content(self):
+        self.out = []
+        kind = self.spec['kind']
+        body = {'text': 'office:text', 'sheet': 'office:spreadsheet', 'pres': 'office:presentation'}[kind]
+        self.root('office:document-content')
+        self.nl(1); self.open('office:automatic-styles'); self.styles(True, 2); self.nl(1); self.close('office:automatic-styles')
+        self.nl(1); self.open('office:body'); self.nl(2); self.open(body)
+        self.blocks(self.spec['body'], 3)
+        self.nl(2); self.close(body); self.nl(1); self.close('office:body'); self.nl(0); self.close('office:document-content')
+        return u''.join(self.out)
+
+    def stylesxml(self):
+        self.out = []
+        self.root('office:document-styles')
+        self.nl(1); self.open('office:styles'); self.styles(False, 2); self.nl(1); self.close('office:styles')
+        if self.spec['kind'] == 'pres':
+            self.nl(1); self.open('office:automatic-styles'); self.nl(2); self.open('style:page-layout', [('style:name', u'PL1')], True)
+            self.nl(1); self.close('office:automatic-styles')
+            self.nl(1); self.open('office:master-styles'); self.nl(2)
+            self.open('style:master-page', [('style:name', u'MP1'), ('style:page-layout-name', u'PL1')], True)
+            self.nl(1); self.close('office:master-styles')
+        self.nl(0); self.close('office:document-styles')
+        return u''.join(self.out)
+
+    def metaxml(self):
+        self.out = []
+        m = self.spec.get('meta', {})
+        self.root('office:document-meta')
+        self.nl(1); self.open('office:meta')
+        for key, el in (('title', 'dc:title'), ('creator', 'dc:creator'), ('language', 'dc:language'), ('description', 'dc:description'),
+                        ('keyword', 'meta:keyword'), ('generator', 'meta:generator')):
+            if m.get(key) is not None:
+                self.nl(2); self.open(el); self.out.append(_esc_text(m[key])); self.close(el)
+        for nm, val in m.get('userdef', []):
+            self.nl(2); self.open('meta:user-defined', [('meta:name', nm)]); self.out.append(_esc_text(val)); self.close('meta:user-defined')
+        self.nl(1); self.close('office:meta'); self.nl(0); self.close('office:document-meta')
+        return u''.join(self.out)
+
+
+def write_package(spec, path, alt=False):
+    """the document as a package the library did not write"""
+    import zipfile
+    ser = Ser(spec, alt)
+    content, styles, meta = ser.content(), ser.stylesxml(), ser.metaxml()
+    mime = MIME[spec['kind']]
+    entries = [(u'/', mime), (u'content.xml', u'text/xml'), (u'styles.xml', u'text/xml'), (u'meta.xml', u'text/xml')]
+    if ser.png:
+        entries.append((u'Pictures/c18.png', u'image/png'))
+    man = u'<?xml version="1.0" encoding="UTF-8"?>\n<manifest:manifest xmlns:manifest="%s" manifest:version="1.2">\n' % NSURI['manifest']
+    for full, mt in entries:
+        man += u' <manifest:file-entry manifest:full-path="%s" manifest:media-type="%s"/>\n' % (full, mt)
+    man += u'</manifest:manifest>\n'
+    z = zipfile.ZipFile(path, 'w', zipfile.ZIP_DEFLATED)
+    z.writestr(zipfile.ZipInfo('mimetype'), mime.encode('ascii'))
+    z.writestr('META-INF/manifest.xml', man.encode('utf-8'))
+    z.writestr('content.xml', content.encode('utf-8'))
+    z.writestr('styles.xml', styles.encode('utf-8'))
+    z.writestr('meta.xml', meta.encode('utf-8'))
+    if ser.png:
+        z.writestr('Pictures/c18.png', PNG)
+    z.close()
